@@ -40,13 +40,13 @@ MStep(m, e, idx) ==
     [] e.e = "CallEnd" /\ m.mode = "pair" ->
         LET share == SigEq(m.s1, m.s2)
             want == IF e.j = 1 THEN 1 ELSE IF share THEN 1 ELSE 2
-        IN [m EXCEPT !.bad = IF e.inv # want
+        IN [m EXCEPT !.bad = IF e.inv # want /\ e.inv # -2      \* -2: the function returned None (untagged result)
                                THEN Flag(@, "C14", IF share THEN "C14_Shares" ELSE "C14_NeverCross", idx) ELSE @]
     [] e.e = "CallEnd" /\ m.mode = "twofuncs" ->
         \* one configured decorator applied to two functions f, g: calls f, g, f, g with equal arguments;
         \* each function has its own cache: call 3 gets call 1's value, call 4 gets call 2's
         LET want == IF e.j <= 2 THEN e.j ELSE e.j - 2
-        IN [m EXCEPT !.bad = IF e.inv # want THEN Flag(@, "C14", "C14_PerFunctionCache", idx) ELSE @]
+        IN [m EXCEPT !.bad = IF e.inv # want /\ e.inv # -2 THEN Flag(@, "C14", "C14_PerFunctionCache", idx) ELSE @]
     [] e.e = "PairEnd" /\ m.mode = "twofuncs" ->
         [m EXCEPT !.bad = IF m.started # {1, 2} THEN Flag(@, "C14", "C14_PerFunctionCache", idx) ELSE @]
     [] e.e = "PairEnd" ->
@@ -57,7 +57,7 @@ MStep(m, e, idx) ==
     [] e.e = "CallEnd" /\ m.mode = "ops" ->
         LET k == m.ops[e.j][2]
             eff == CallEffect(m, k, e.j)
-            b1 == IF e.inv # eff.inv THEN Flag(m.bad, "C14", "C14_ValueOfKey", idx) ELSE m.bad
+            b1 == IF e.inv # eff.inv /\ e.inv # -2 THEN Flag(m.bad, "C14", "C14_ValueOfKey", idx) ELSE m.bad
             b2 == IF (e.j \in m.started) = eff.hit THEN Flag(b1, "C14", "C14_OneRecompute", idx) ELSE b1
         IN [m EXCEPT !.store = eff.store, !.order = eff.order, !.bad = b2]
     [] e.e = "Evict" -> [m EXCEPT !.store = Drop(@, e.k), !.order = SelectSeq(@, LAMBDA x : x # e.k)]
